@@ -123,6 +123,10 @@ theorem Py_eval_congr (s s' : Store) (e : Expr) (h : ∀ x ∈ e.vars, s.get x =
     simp only [Expr.vars, List.mem_append] at h
     simp only [Py.eval, ihc (fun x hx => h x (.inl (.inl hx))), iha (fun x hx => h x (.inl (.inr hx))),
       ihb (fun x hx => h x (.inr hx))]
+  | abs a iha => simp only [Expr.vars] at h; simp only [Py.eval, iha h]
+  | mm k a b iha ihb =>
+    simp only [Expr.vars, List.mem_append] at h
+    simp only [Py.eval, iha (fun x hx => h x (.inl hx)), ihb (fun x hx => h x (.inr hx))]
 
 theorem C_eval_congr (te : C.TyEnv) (s s' : Store) (e : Expr) (h : ∀ x ∈ e.vars, s.get x = s'.get x) :
     C.eval te s e = C.eval te s' e := by
@@ -148,6 +152,10 @@ theorem C_eval_congr (te : C.TyEnv) (s s' : Store) (e : Expr) (h : ∀ x ∈ e.v
     simp only [Expr.vars, List.mem_append] at h
     simp only [C.eval, ihc (fun x hx => h x (.inl (.inl hx))), iha (fun x hx => h x (.inl (.inr hx))),
       ihb (fun x hx => h x (.inr hx))]
+  | abs a iha => simp only [Expr.vars] at h; simp only [C.eval, iha h]
+  | mm k a b iha ihb =>
+    simp only [Expr.vars, List.mem_append] at h
+    simp only [C.eval, iha (fun x hx => h x (.inl hx)), ihb (fun x hx => h x (.inr hx))]
 
 theorem nameFree_vars (e : Expr) (h : e.nameFree = true) : e.vars = [] := by
   induction e with
@@ -162,6 +170,8 @@ theorem nameFree_vars (e : Expr) (h : e.nameFree = true) : e.vars = [] := by
   | not a iha => simp only [Expr.nameFree] at h; simp [Expr.vars, iha h]
   | ite c a b ihc iha ihb =>
     simp only [Expr.nameFree, Bool.and_eq_true] at h; simp [Expr.vars, ihc h.1.1, iha h.1.2, ihb h.2]
+  | abs a iha => simp only [Expr.nameFree] at h; simp [Expr.vars, iha h]
+  | mm k a b iha ihb => simp only [Expr.nameFree, Bool.and_eq_true] at h; simp [Expr.vars, iha h.1, ihb h.2]
 
 theorem wt_vars (te : C.TyEnv) (e : Expr) (h : e.wt te = true) : ∀ x ∈ e.vars, (te.lookup x).isSome = true := by
   induction e with
@@ -201,6 +211,13 @@ theorem wt_vars (te : C.TyEnv) (e : Expr) (h : e.wt te = true) : ∀ x ∈ e.var
     · exact ihc h.1.1.1 y hy
     · exact iha h.1.1.2 y hy
     · exact ihb h.1.2 y hy
+  | abs a iha => simp only [Expr.wt] at h; exact iha h
+  | mm k a b iha ihb =>
+    simp only [Expr.wt, Bool.and_eq_true] at h
+    intro y hy; simp only [Expr.vars, List.mem_append] at hy
+    rcases hy with hy | hy
+    · exact iha h.1.1.1 y hy
+    · exact ihb h.1.1.2 y hy
 
 /-! ### weakening of the type environment -/
 
@@ -239,6 +256,61 @@ theorem wt_sub {te te' : C.TyEnv} (hs : Sub te te') (e : Expr) (h : e.wt te = tr
     simp only [Expr.wt, Bool.and_eq_true, beq_iff_eq] at h
     simp only [Expr.wt, inferTy, (ihc h.1.1.1).1, (iha h.1.1.2).1, (ihb h.1.2).1, (iha h.1.1.2).2, (ihb h.1.2).2,
       h.2, beq_self_eq_true, Bool.and_self, and_self]
+  | abs a iha =>
+    simp only [Expr.wt] at h
+    simp only [Expr.wt, inferTy, (iha h).1, and_self]
+  | mm k a b iha ihb =>
+    simp only [Expr.wt, Bool.and_eq_true, beq_iff_eq] at h
+    simp only [Expr.wt, inferTy, (iha h.1.1.1).1, (ihb h.1.1.2).1, (iha h.1.1.1).2, (ihb h.1.1.2).2, h.1.2, h.2,
+      beq_self_eq_true, Bool.and_self, and_self]
+
+/-- a name-free expression is typed independently of the declarations -/
+theorem wt_nameFree (te te' : C.TyEnv) (e : Expr) (hnf : e.nameFree = true) (h : e.wt te = true) :
+    e.wt te' = true ∧ inferTy te' e = inferTy te e := by
+  induction e with
+  | int n => exact ⟨rfl, rfl⟩
+  | bool b => exact ⟨rfl, rfl⟩
+  | var x => simp [Expr.nameFree] at hnf
+  | bin op a b iha ihb =>
+    simp only [Expr.nameFree, Bool.and_eq_true] at hnf
+    simp only [Expr.wt, Bool.and_eq_true] at h
+    simp only [Expr.wt, inferTy, (iha hnf.1 h.1).1, (ihb hnf.2 h.2).1, Bool.and_self, and_self]
+  | cmp op a b iha ihb =>
+    simp only [Expr.nameFree, Bool.and_eq_true] at hnf
+    simp only [Expr.wt, Bool.and_eq_true] at h
+    simp only [Expr.wt, inferTy, (iha hnf.1 h.1).1, (ihb hnf.2 h.2).1, Bool.and_self, and_self]
+  | neg a iha =>
+    simp only [Expr.nameFree] at hnf
+    simp only [Expr.wt, Bool.and_eq_true, beq_iff_eq] at h
+    simp only [Expr.wt, inferTy, (iha hnf h.1).1, (iha hnf h.1).2, h.2, beq_self_eq_true, Bool.and_self, and_self]
+  | not a iha =>
+    simp only [Expr.nameFree] at hnf
+    simp only [Expr.wt] at h
+    simp only [Expr.wt, inferTy, (iha hnf h).1, and_self]
+  | and a b iha ihb =>
+    simp only [Expr.nameFree, Bool.and_eq_true] at hnf
+    simp only [Expr.wt, Bool.and_eq_true, beq_iff_eq] at h
+    simp only [Expr.wt, inferTy, (iha hnf.1 h.1.1.1).1, (ihb hnf.2 h.1.1.2).1, (iha hnf.1 h.1.1.1).2, (ihb hnf.2 h.1.1.2).2,
+      h.1.2, h.2, beq_self_eq_true, Bool.and_self, and_self]
+  | or a b iha ihb =>
+    simp only [Expr.nameFree, Bool.and_eq_true] at hnf
+    simp only [Expr.wt, Bool.and_eq_true, beq_iff_eq] at h
+    simp only [Expr.wt, inferTy, (iha hnf.1 h.1.1.1).1, (ihb hnf.2 h.1.1.2).1, (iha hnf.1 h.1.1.1).2, (ihb hnf.2 h.1.1.2).2,
+      h.1.2, h.2, beq_self_eq_true, Bool.and_self, and_self]
+  | ite c a b ihc iha ihb =>
+    simp only [Expr.nameFree, Bool.and_eq_true] at hnf
+    simp only [Expr.wt, Bool.and_eq_true, beq_iff_eq] at h
+    simp only [Expr.wt, inferTy, (ihc hnf.1.1 h.1.1.1).1, (iha hnf.1.2 h.1.1.2).1, (ihb hnf.2 h.1.2).1,
+      (iha hnf.1.2 h.1.1.2).2, (ihb hnf.2 h.1.2).2, h.2, beq_self_eq_true, Bool.and_self, and_self]
+  | abs a iha =>
+    simp only [Expr.nameFree] at hnf
+    simp only [Expr.wt] at h
+    simp only [Expr.wt, inferTy, (iha hnf h).1, and_self]
+  | mm k a b iha ihb =>
+    simp only [Expr.nameFree, Bool.and_eq_true] at hnf
+    simp only [Expr.wt, Bool.and_eq_true, beq_iff_eq] at h
+    simp only [Expr.wt, inferTy, (iha hnf.1 h.1.1.1).1, (ihb hnf.2 h.1.1.2).1, (iha hnf.1 h.1.1.1).2, (ihb hnf.2 h.1.1.2).2,
+      h.1.2, h.2, beq_self_eq_true, Bool.and_self, and_self]
 
 theorem Sub_cons {te : C.TyEnv} {i : String} (t : Ty) (hi : te.lookup i = none) : Sub te ((i, t) :: te) := by
   intro x tx hx
@@ -268,7 +340,7 @@ theorem evalConst_spec {e : Expr} {v : Val} (h : evalConst e = some v) (s : Stor
 /-- the (possibly folded) argument of `sleep`/`range` has the same integer value on both sides -/
 theorem foldArg_sim (te : C.TyEnv) (sp sc : Store) (hrel : Rel te sp sc) (e : Expr) (v : Val)
     (hwt : e.wt te = true) (hpy : Py.eval sp e = .ok v) :
-    (∃ cv, C.eval te sc (foldArg e) = .ok cv ∧ cv.toInt = v.toInt) ∨ C.eval te sc (foldArg e) = .error .overflow := by
+    (∃ cv, C.eval te sc (foldArg e) = .ok cv ∧ cv.toInt = v.toInt) ∨ UB (C.eval te sc (foldArg e)) := by
   unfold foldArg
   cases hc : evalConst e with
   | some w =>
